@@ -721,28 +721,37 @@ fn run_hermes(r: &mut Rng, n: u64) {
 // ---- C05: untrusted bytes never crash the library (crash oracle only; no model prediction for the JSON layer) ----
 fn exercise(dm: &sourcemap::DecodedMap, r: &mut Rng) -> &'static str {
     // every read-only query, re-encoding, rewriting and flattening on whatever was decoded
+    let redecode_failed = std::cell::Cell::new(false);
+    let sv = sourcemap::SourceView::new("function a(){}\nvar \u{10000}b=function(){x()};\r\n(function(){throw 1})()".into());
+    // the map-kind independent entry points of DecodedMap
+    for _ in 0..4 { let l = [0, 1, 2, u32::MAX][r.below(4) as usize]; let c = [0, 9, 17, 70000, u32::MAX][r.below(5) as usize];
+        if let Some(t) = dm.lookup_token(l, c) { let _ = (format!("{:?}", t), format!("{:#}", t), format!("{}", t), t.to_tuple()); }
+        let _ = dm.get_original_function_name(l, c, Some("x"), Some(&sv)); let _ = dm.get_original_function_name(l, c, None, None); }
+    let _ = format!("{:?}", dm).len();
     let poke = |sm: &sourcemap::SourceMap, r: &mut Rng| {
         for _ in 0..6 { let l = [0, 1, 2, 7, u32::MAX][r.below(5) as usize]; let c = [0, 1, 5, 70000, u32::MAX][r.below(5) as usize];
             if let Some(t) = sm.lookup_token(l, c) { let _ = (t.get_source(), t.get_name(), t.get_src_line(), t.get_src_col(), t.get_src(), t.to_string()); } }
         for t in sm.tokens() { let _ = (t.get_source(), t.get_name(), t.get_source_view().is_some()); }
         for i in [0u32, 1, 5, u32::MAX] { let _ = (sm.get_source(i), sm.get_name(i), sm.get_source_contents(i), sm.get_source_view(i).is_some()); }
         // the format spends one byte per generated line: serialise only maps whose greatest line is below 100000 (as the property says)
-        if sm.tokens().map(|t| t.get_dst_line()).max().unwrap_or(0) < 100_000 { let mut out = vec![]; let _ = sm.to_writer(&mut out); let _ = sourcemap::decode_slice(&out); let _ = sm.to_data_url(); }
+        if sm.tokens().map(|t| t.get_dst_line()).max().unwrap_or(0) < 100_000 { let mut out = vec![]; let _ = sm.to_writer(&mut out); if sourcemap::decode_slice(&out).is_err() { redecode_failed.set(true); } let _ = sm.to_data_url(); }
+        for t in sm.tokens().take(20) { let _ = sv.get_original_function_name(t, "x"); let _ = sm.get_original_function_name(t.get_dst_line(), t.get_dst_col(), "b", &sv); }
         for opts in [sourcemap::RewriteOptions::default(), sourcemap::RewriteOptions { with_names: false, with_source_contents: false, strip_prefixes: &["~", "a"], ..Default::default() }] { let _ = sm.clone().rewrite(&opts); }
     };
     match dm {
-        sourcemap::DecodedMap::Regular(sm) => { poke(sm, r); "ok-regular" }
+        sourcemap::DecodedMap::Regular(sm) => { poke(sm, r); if redecode_failed.get() { "panic:reencoded-form-does-not-decode" } else { "ok-regular" } }
         sourcemap::DecodedMap::Index(idx) => {
             for _ in 0..6 { let _ = idx.lookup_token(r.below(4) as u32, [0, 3, u32::MAX][r.below(3) as usize]); }
             let small = idx.sections().all(|s| s.get_sourcemap().map(|m| match m { sourcemap::DecodedMap::Regular(sm) => sm.tokens().map(|t| t.get_dst_line()).max().unwrap_or(0) < 100_000, _ => true }).unwrap_or(true));
-            if small { let mut out = vec![]; let _ = idx.to_writer(&mut out); }
+            if small { let mut out = vec![]; let _ = idx.to_writer(&mut out); if sourcemap::decode_slice(&out).is_err() { redecode_failed.set(true); } }
             if let Ok(f) = idx.flatten() { poke(&f, r); }
-            "ok-index" }
+            for k in 0..idx.get_section_count() + 1 { let _ = idx.get_section(k).map(|s| (s.get_offset(), s.get_url().map(|u| u.len()), s.get_sourcemap().is_some())); }
+            if redecode_failed.get() { "panic:reencoded-form-does-not-decode" } else { "ok-index" } }
         sourcemap::DecodedMap::Hermes(h) => {
             poke(h, r); for o in [0u32, 3, 40, u32::MAX] { let _ = h.get_original_function_name(o); }
             for k in 0..h.get_token_count() { let _ = h.get_scope_for_token(h.get_token(k as usize).unwrap()); }
-            let _ = h.clone().rewrite(&sourcemap::RewriteOptions::default()); if h.tokens().map(|t| t.get_dst_line()).max().unwrap_or(0) < 100_000 { let mut out = vec![]; let _ = h.to_writer(&mut out); }
-            "ok-hermes" }
+            let _ = h.clone().rewrite(&sourcemap::RewriteOptions::default()); if h.tokens().map(|t| t.get_dst_line()).max().unwrap_or(0) < 100_000 { let mut out = vec![]; let _ = h.to_writer(&mut out); if sourcemap::decode_slice(&out).is_err() { redecode_failed.set(true); } }
+            if redecode_failed.get() { "panic:reencoded-form-does-not-decode" } else { "ok-hermes" } }
     }
 }
 fn run_crash(r: &mut Rng, n: u64) {
@@ -751,8 +760,17 @@ fn run_crash(r: &mut Rng, n: u64) {
     let frag = ["\"mappings\"", "\"sources\"", "\"names\"", "\"sections\"", "\"offset\"", "\"line\"", "\"column\"", "\"map\"", "\"x_facebook_sources\"", "\"rangeMappings\"", "\"sourcesContent\"", "\"ignoreList\"", "\"debug_id\"",
         ":", ",", "{", "}", "[", "]", "null", "3", "-1", "4294967296", "1e400", "\"AAAA\"", "\"AAgggggggggggggB\"", "\"////////////f\"", "\"!\"", "\";;;,,\"", "\"\\ud800\"", "\"a\"", "[[{\"names\":[\"f\"],\"mappings\":\"AAA;g\"}]]", ")]}'\n", " "];
     for i in 0..n {
-        let kind = r.below(4);
+        // mostly-valid documents get half of the cases: only a map that decodes can be queried, rewritten, flattened and re-encoded
+        let kind = [0u64, 1, 2, 3, 3, 4][r.below(6) as usize];
         let input: Vec<u8> = match kind {
+            4 => { // a document written by the crate itself (regular, Hermes, nested index with RAM-bundle fields), then zero or one value-level edit
+                let mut doc: serde_json::Value = match r.below(3) { 0 => { let mut o = vec![]; gen_map(r, false).to_writer(&mut o).unwrap(); serde_json::from_slice(&o).unwrap() }
+                    1 => serde_json::from_slice(&gen_hermes_doc(r)).unwrap(),
+                    _ => { let mut o = vec![]; gen_index(r, 2).to_writer(&mut o).unwrap(); serde_json::from_slice(&o).unwrap() } };
+                if r.below(2) == 0 { if let Some(o) = doc.as_object_mut() { let keys: Vec<String> = o.keys().cloned().collect(); if !keys.is_empty() { let k = keys[r.below(keys.len() as u64) as usize].clone();
+                    match r.below(4) { 0 => { o.remove(&k); } 1 => { o.insert(k, serde_json::json!(null)); } 2 => { if let Some(a) = o.get_mut(&k).and_then(|x| x.as_array_mut()) { if !a.is_empty() { let n = r.below(a.len() as u64) as usize; a.remove(n); } } }
+                        _ => { if let Some(a) = o.get_mut(&k).and_then(|x| x.as_array_mut()) { a.push(serde_json::json!("extra")); } } } } } }
+                serde_json::to_vec(&doc).unwrap() }
             0 => (0..r.below(48)).map(|_| r.below(256) as u8).collect(),
             1 => { let mut s = String::new(); for _ in 0..r.below(40) { s.push_str(frag[r.below(frag.len() as u64) as usize]); } s.into_bytes() }
             2 if !seeds.is_empty() => { let mut b = seeds[r.below(seeds.len() as u64) as usize].clone(); if b.len() > 4000 { let keep = 1500 + r.below(1500) as usize; let cut = b.len() - keep; let st = r.below((keep / 2) as u64) as usize + 200; b.drain(st..st + cut); }
@@ -851,7 +869,8 @@ fn dm_full_obs(dm: &sourcemap::DecodedMap) -> String {
             let scopes: Vec<String> = { let mut v = vec![]; let mut last = None; for t in h.tokens() { let w = view_of(&t); if last.as_ref() != Some(&w) { v.push(opt_hex(h.get_scope_for_token(t))); } last = Some(w); } v };
             let fns: Vec<String> = (0..40u32).step_by(3).map(|o| opt_hex(h.get_original_function_name(o))).collect();
             format!("H[{} scopes={} fns={}]", sm_full_obs(h), scopes.join(","), fns.join(",")) }
-        sourcemap::DecodedMap::Index(ix) => format!("I[file={} sections={}]", opt_hex(ix.get_file()),
+        sourcemap::DecodedMap::Index(ix) => format!("I[file={}{} sections={}]", opt_hex(ix.get_file()),
+            if ix.x_facebook_offsets().is_some() || ix.x_metro_module_paths().is_some() || ix.is_for_ram_bundle() { format!(" fbo={:?} mmp={:?} ram={}", ix.x_facebook_offsets(), ix.x_metro_module_paths(), ix.is_for_ram_bundle()).replace(' ', "_").replace("_fbo", " fbo").replace("_mmp", " mmp").replace("_ram=", " ram=") } else { String::new() },
             ix.sections().map(|s| format!("({}:{}:{}:{})", s.get_offset_line(), s.get_offset_col(), opt_hex(s.get_url()), s.get_sourcemap().map(dm_full_obs).unwrap_or("nomap".into()))).collect::<Vec<_>>().join("")),
     }
 }
@@ -910,7 +929,12 @@ fn gen_index(r: &mut Rng, depth: u32) -> sourcemap::SourceMapIndex {
         secs.push(sourcemap::SourceMapSection::new(off, url, inner));
         off = (off.0 + 100 + r.below(3) as u32, r.below(5) as u32);
     }
-    sourcemap::SourceMapIndex::new(if r.below(2) == 0 { Some("bundle.js".into()) } else { None }, secs)
+    let file = if r.below(2) == 0 { Some("bundle.js".into()) } else { None };
+    // the RAM-bundle extension fields travel with the index map (either, both or none)
+    if r.below(3) == 0 { let fbo = if r.below(3) > 0 { Some((0..r.below(4)).map(|k| if k % 2 == 1 { None } else { Some(k as u32 * 7) }).collect()) } else { None };
+        let mmp = if r.below(3) > 0 { Some((0..r.below(3)).map(|k| format!("/m/{}.js", k)).collect()) } else { None };
+        sourcemap::SourceMapIndex::new_ram_bundle_compatible(file, secs, fbo, mmp) }
+    else { sourcemap::SourceMapIndex::new(file, secs) }
 }
 fn run_roundtrip(r: &mut Rng, n: u64) {
     for i in 0..n {
